@@ -32,6 +32,7 @@ CONSTANTS Trees,         \* set of key->value maps to checkpoint
           Versions,      \* versions at which the root may be restored
           Mode,          \* "create": in-order restore only; "sched": all schedules
           MaxOps, MaxChunks, MaxAborts, MaxBad, MaxNoise, MaxCrashes,
+          RestorerFixed, \* BOOLEAN: the restorer of the fixed tree (1bc4d41) / of the pinned tree (done-after-abort)
           Conc,          \* BOOLEAN: one caller may be in flight (gated) / concurrent groups
           MaxProofDepth, \* the verifier's depth limit (128 in syncer/proof.go)
           Excuse         \* names of the known model-level rule breaches that are not asserted
@@ -337,7 +338,7 @@ be == cfg.be
 AllIdx == 1..N
 
 RsIdle == [active |-> FALSE, v |-> 0, forged |-> 0, pending |-> {}]
-GhInit == [started |-> {}, retry |-> FALSE, got |-> {}, done |-> 0, daa |-> FALSE, crashFin |-> FALSE,
+GhInit == [started |-> {}, retry |-> FALSE, got |-> {}, done |-> 0, daa |-> FALSE, crashFin |-> FALSE, stale |-> FALSE,
            aborts |-> 0, bads |-> 0, noise |-> 0, crashes |-> 0, fin |-> FALSE]
 
 Vis(d) == [latest |-> d.lastFin,
@@ -346,8 +347,10 @@ Vis(d) == [latest |-> d.lastFin,
 
 Pred(res, d) == [res |-> res, latest |-> Vis(d).latest, has |-> Vis(d).has, readable |-> Vis(d).readable]
 
-(* restorer: finish of RestoreChunk(i) under the lock (delete from pending; done when nothing is pending -          *)
-(* also when the pending set was dropped by an abort in the meantime)                                               *)
+(* restorer: finish of RestoreChunk(i) under the lock (delete from pending; done when nothing is pending).           *)
+(* A caller whose restore was aborted while it was importing (gh.stale) gets "norestore" instead - see Release;     *)
+(* RestorerFixed = FALSE keeps the transcription of the tree before fix 1bc4d41, where such a caller deleted from    *)
+(* the dropped (nil) pending set, found it empty and reported "done" (the done-after-abort excuse).                  *)
 RsFinish(r, i) ==
     LET p == r.pending \ {i} IN
     IF p = {} THEN [r |-> RsIdle, res |-> "done"] ELSE [r |-> [r EXCEPT !.pending = p], res |-> "ok"]
@@ -403,7 +406,7 @@ Bad(i, kind) ==
     /\ LET res == IF i \notin rs.pending THEN "already" ELSE IF kind = "digest" THEN "corrupted" ELSE "prooffail" IN
        /\ rs' = IF res = "prooffail" THEN RsIdle ELSE rs
        /\ Log([a |-> "bad", i |-> i, kind |-> kind], res, db)
-    /\ gh' = [gh EXCEPT !.bads = @ + 1]
+       /\ gh' = [gh EXCEPT !.bads = @ + 1, !.stale = (@ \/ (gate # 0 /\ res = "prooffail"))]
     /\ UNCHANGED <<cfg, chunks, gate, db>>
 
 (* one caller passes the pending check and is held inside the chunk commit *)
@@ -411,16 +414,22 @@ Gate(i) ==
     /\ Conc /\ Mode = "sched" /\ Quiet /\ rs.active /\ i \in rs.pending /\ i # rs.forged /\ ~gh.fin
     /\ gate' = i
     /\ hist' = Append(hist, [a |-> "gate", i |-> i])
-    /\ UNCHANGED <<cfg, chunks, rs, db, gh>>
+    /\ gh' = [gh EXCEPT !.stale = FALSE]
+    /\ UNCHANGED <<cfg, chunks, rs, db>>
 
 Release ==
     /\ gate # 0
-    /\ LET f == RsFinish(rs, gate) IN
-       /\ db' = DbImport(be, db, chunks[gate])
-       /\ rs' = f.r
-       /\ gh' = [gh EXCEPT !.got = @ \cup {gate}, !.done = IF f.res = "done" THEN db.mpv ELSE @,
-                           !.daa = (f.res = "done" /\ (gh.got \cup {gate}) # AllIdx)]
-       /\ Log([a |-> "release"], f.res, db')
+    /\ IF RestorerFixed /\ gh.stale THEN      \* the chunk went into the database, the restorer does not count it
+            /\ db' = DbImport(be, db, chunks[gate])
+            /\ rs' = rs
+            /\ gh' = [gh EXCEPT !.got = @ \cup {gate}, !.stale = FALSE]
+            /\ Log([a |-> "release"], "norestore", db')
+       ELSE LET f == RsFinish(rs, gate) IN
+            /\ db' = DbImport(be, db, chunks[gate])
+            /\ rs' = f.r
+            /\ gh' = [gh EXCEPT !.got = @ \cup {gate}, !.done = IF f.res = "done" THEN db.mpv ELSE @,
+                                !.daa = (f.res = "done" /\ (gh.got \cup {gate}) # AllIdx), !.stale = FALSE]
+            /\ Log([a |-> "release"], f.res, db')
     /\ gate' = 0
     /\ UNCHANGED <<cfg, chunks>>
 
@@ -428,7 +437,8 @@ AbortRs ==
     /\ Mode = "sched" /\ gate # 0 /\ rs.active
     /\ rs' = RsIdle
     /\ hist' = Append(hist, [a |-> "abortrs"])
-    /\ UNCHANGED <<cfg, chunks, gate, db, gh>>
+    /\ gh' = [gh EXCEPT !.stale = TRUE]
+    /\ UNCHANGED <<cfg, chunks, gate, db>>
 
 (* concurrent callers, free running: both chunks end up imported; individual results are not predicted *)
 Par(S) ==
